@@ -106,8 +106,14 @@ def obligation_undecided(o):
     return False                     # covers: unknown == not refuted
 
 
+def _finding_applies(fd, pid):
+    props = fd.get("properties") or [fd.get("property")]
+    return pid in props and fd.get("status", "open").startswith("open")
+
+
 def finding_matches(fd, pid, func, kind, text):
-    if fd.get("property") != pid or not fd.get("status", "open").startswith("open"):
+    """Does the open finding `fd` cover the failing obligation (func, kind, text)?"""
+    if not _finding_applies(fd, pid):
         return False
     if fd.get("function") and fd["function"] != func:
         return False
@@ -116,6 +122,23 @@ def finding_matches(fd, pid, func, kind, text):
     if fd.get("match") and fd["match"] not in (text or ""):
         return False
     return True
+
+
+def native_finding(findings, pid, func, failure):
+    """The open finding a run-time failure belongs to: every failed clause must carry the finding's `native_match` text and
+    the failing input must have the finding's `witness` attributes - anything else is a different violation."""
+    failed = failure.get("failed") or []
+    case = failure.get("case") or {}
+    for fd in findings:
+        if not _finding_applies(fd, pid) or (fd.get("function") and fd["function"] != func):
+            continue
+        nm = fd.get("native_match")
+        if not nm or not failed or not all(nm in str(x) for x in failed):
+            continue
+        if any(case.get(k) != v for k, v in (fd.get("witness") or {}).items()):
+            continue
+        return fd
+    return None
 
 
 def run_check(pid, tier, seed):
@@ -172,8 +195,27 @@ def run_check(pid, tier, seed):
         if cs and all(obligation_failed(o) for o in cs):
             cover_refuted.append(cs[0])
     nres = native.get("results", {})
-    native_fail = {k: v for k, v in nres.items() if v.get("failures")}
     native_err = {k: v for k, v in nres.items() if v.get("status") in ("error",) or (v.get("status") == "no-harness")}
+    # run-time failures: those that are exactly a recorded open finding are set aside, the rest can witness a violation
+    native_known = {}
+    native_fail = {}
+    for k, v in nres.items():
+        for f in v.get("failures") or []:
+            fd = native_finding(findings, pid, k, f)
+            if fd:
+                native_known.setdefault(k, []).append((fd, f))
+            else:
+                native_fail.setdefault(k, []).append(f)
+
+    def pick_native(func, o):
+        fs = native_fail.get(func)
+        if not fs:
+            return None
+        clause = (o.extra.get("clause") if o is not None else None) or ""
+        for f in fs:
+            if clause and any(clause[:80] in str(x) for x in f.get("failed") or []):
+                return f
+        return fs[0]
 
     violations = []      # (function, description, obligation or None, native failure or None)
     known = []
@@ -192,45 +234,36 @@ def run_check(pid, tier, seed):
                 rest.append(o)
         if not rest:
             continue
-        os_ = rest
-        o = os_[0]
-        fd = next((f for f in findings if finding_matches(f, pid, func, o.kind, o.desc)), None)
-        if fd:
-            known.append((fd, o))
-            continue
-        nf = native_fail.get(func)
-        violations.append({"function": func, "obligation": o, "native": nf["failures"][0] if nf else None, "all": os_})
+        o = rest[0]
+        violations.append({"function": func, "obligation": o, "native": pick_native(func, o), "all": rest})
         handled_native.add(func)
-    # undecided obligations / functions: a native failing input turns them into sound alarms
+    # undecided obligations / functions: a failing real input turns them into sound alarms (or into the recorded finding)
     undecided_left = []
     for o in undec:
-        nf = native_fail.get(o.func)
+        fd = next((f for f in findings if finding_matches(f, pid, o.func, o.kind, o.desc)), None)
+        if fd and any(fd2["id"] == fd["id"] for fd2, _ in native_known.get(o.func, [])):
+            known.append((fd, o))          # undecided by the solver, witnessed on the real code by the recorded input class
+            continue
+        nf = pick_native(o.func, o)
         if nf:
-            fd = next((f for f in findings if finding_matches(f, pid, o.func, o.kind, o.desc)), None)
-            if fd:
-                known.append((fd, o))
-                continue
             if o.func not in handled_native:
-                violations.append({"function": o.func, "obligation": o, "native": nf["failures"][0], "all": [o]})
+                violations.append({"function": o.func, "obligation": o, "native": nf, "all": [o]})
                 handled_native.add(o.func)
         else:
             undecided_left.append(o)
     for key, reason in undecided_funcs:
-        nf = native_fail.get(key)
+        nf = pick_native(key, None)
         if nf and key not in handled_native:
-            violations.append({"function": key, "obligation": None, "native": nf["failures"][0], "all": [], "reason": reason})
+            violations.append({"function": key, "obligation": None, "native": nf, "all": [], "reason": reason})
             handled_native.add(key)
-    # native failures on functions whose proofs all went through (bounded check disagrees)
-    for key, v in native_fail.items():
+    # run-time failures on functions whose proofs all went through (the bounded check disagrees)
+    for key, fs in native_fail.items():
         if key in handled_native:
             continue
-        f0 = v["failures"][0]
-        text = "; ".join(f0.get("failed", []))
-        fd = next((f for f in findings if finding_matches(f, pid, key, None, text)), None)
-        if fd:
+        violations.append({"function": key, "obligation": None, "native": fs[0], "all": [], "reason": "run-time contract check on the real code failed"})
+    for key, lst in native_known.items():
+        for fd, f in lst:
             known.append((fd, None))
-            continue
-        violations.append({"function": key, "obligation": None, "native": f0, "all": [], "reason": "run-time contract check on the real code failed"})
 
     # ---- output ---------------------------------------------------------------------------
     rdir = os.path.join(ROOT, "evidence", "replay")
@@ -269,8 +302,9 @@ def run_check(pid, tier, seed):
     for ln in lines:
         print(ln)
 
-    n_ob = len(obs)
-    n_dis = sum(1 for o in obs if o.verdict == "unsat")
+    set_aside = [o for fd, o in known if o is not None]          # obligations that fail because of a recorded open finding
+    n_ob = len(obs) - len(set_aside)
+    n_dis = sum(1 for o in obs if o.verdict == "unsat" and o not in set_aside)
     status = 0
     checker_problems = []
     if cover_refuted:
@@ -339,8 +373,6 @@ def run_check(pid, tier, seed):
     native_rows = {k: {x: v.get(x) for x in ("status", "cases", "distinct", "precondition_rejected", "wall_s")} | {"failures": len(v.get("failures", []))}
                    for k, v in nres.items()}
     level = prop.get("level", "proof")
-    if known and level == "proof":
-        level = "other"
     evidence = {
         "property_id": pid, "tier": tier, "seed": seed, "level": level,
         "coverage": {
@@ -363,6 +395,7 @@ def run_check(pid, tier, seed):
             "traces_validated_against_impl": sum(v.get("cases", 0) or 0 for v in nres.values()),
             "undecided": [o.id for o in undecided_left] + [f"{k}: {r}" for k, r in undecided_funcs],
             "known_findings": sorted(seen_known),
+            "obligations_set_aside_for_known_findings": [{"id": o.id, "finding": fd["id"], "what": o.desc[:160], "verdict": o.verdict} for fd, o in known if o is not None],
             "not_decided": prop.get("not_decided", []),
         },
         "assumptions": prop.get("assumptions", []) + [t for t in trusted if t.startswith("assumed contract")],
